@@ -6,7 +6,10 @@
 // Every request carries otherwise VALID grant material (a live code with its PKCE verifier and redirect URI, a live refresh
 // token, an approved device code, a live subject token, a genuine grant assertion, a live access token for introspection /
 // revocation) that belongs to the client the request names, so that client authentication and grant registration are the only
-// obstacles. The oracle (authClass / judge below) is a function of the case alone, written from the statement; it never calls the library.
+// obstacles - or (Owner == "other") to the OTHER registered client, whose credentials the request does not carry, so that
+// honouring it would be acting for a client that has not authenticated. The optional parameters of each grant (Opts) are
+// generated, too: they select the path through the handler, never who is authenticated or which registration is needed.
+// The oracle (authClass / judge below) is a function of the case alone, written from the statement; it never calls the library.
 package c05
 
 import (
@@ -86,13 +89,13 @@ type Case struct {
 // Opts are the optional request parameters of a grant: none of them may change who is authenticated or which grant
 // registration is required; they only select the path the handler takes.
 type Opts struct {
-	Scope    string   `json:"scope,omitempty"`      // "" = default of the grant | "-" = parameter absent | value of the scope parameter
-	ReqType  string   `json:"req_type,omitempty"`   // token exchange requested_token_type: "" absent | access | refresh | id | jwt | bogus
-	SubjType string   `json:"subj_type,omitempty"`  // token exchange subject token: "" = refresh token | access | id
-	Actor    string   `json:"actor,omitempty"`      // token exchange actor_token: "" none | access | refresh
-	Audience []string `json:"audience,omitempty"`   // token exchange
-	Resource []string `json:"resource,omitempty"`   // token exchange
-	Hint     string   `json:"hint,omitempty"`       // introspection: token_type_hint
+	Scope    string   `json:"scope,omitempty"`     // "" = default of the grant | "-" = parameter absent | value of the scope parameter
+	ReqType  string   `json:"req_type,omitempty"`  // token exchange requested_token_type: "" absent | access | refresh | id | jwt | bogus
+	SubjType string   `json:"subj_type,omitempty"` // token exchange subject token: "" = refresh token | access | id
+	Actor    string   `json:"actor,omitempty"`     // token exchange actor_token: "" none | access | refresh
+	Audience []string `json:"audience,omitempty"`  // token exchange
+	Resource []string `json:"resource,omitempty"`  // token exchange
+	Hint     string   `json:"hint,omitempty"`      // introspection: token_type_hint
 }
 
 const (
@@ -290,18 +293,19 @@ func genForeign(t *rapid.T, c *Case) {
 }
 
 var (
-	scopeOpts   = []string{"-", "openid", "profile", "openid profile", "openid email", "openid offline_access", vkit.CustomScope}
+	scopeOpts   = []string{"-", "-", "openid", "profile", "openid profile", "openid email", "openid offline_access", vkit.CustomScope}
 	audienceSet = []string{"https://api.example.com", otherID, "urn:svc:a"}
 )
 
 // genOpts: the optional parameters of the grant / endpoint as a dimension of their own.
 func genOpts(t *rapid.T, c *Case) {
 	te := c.Endpoint == "token" && c.Grant == vkit.GTE
-	lim := 2
+	// every second case; token exchange, whose handler branches on almost every optional parameter: four in five
+	off := 5
 	if te {
-		lim = 1
+		off = 2
 	}
-	if rapid.IntRange(0, lim).Draw(t, "opts.on") == lim {
+	if rapid.IntRange(0, 9).Draw(t, "opts.on") < off {
 		return
 	}
 	o := &Opts{}
@@ -522,10 +526,11 @@ func consistentApp(r Reg) bool {
 // Two questions are kept apart. (1) The standing of the CALLER, i.e. of the client the credentials name: authenticated in the
 // registered way, grant registered and enabled (judgeCaller, a function of the presentation and that client's registration).
 // (2) For WHOM the endpoint would be acting if it honoured the material in the request: the owner of that material. When the
-// owner is the other client - which no generated request authenticates: its secret is only ever presented under the caller's
-// id, assertions naming it are signed with the caller's key - honouring the material is acting for a client that has not
+// owner is the other client - which no generated request authenticates: assertions naming it are signed with the caller's
+// key, its secret is presented under the caller's id - honouring the material is acting for a client that has not
 // authenticated, whoever else has. A client_id that rides along (form or URL) and names the other client changes nothing
-// about that, unless the other client is one the statement lets an endpoint act for without a credential; then the case is grey.
+// about that, unless the other client is one the statement lets an endpoint act for without a credential, or the request
+// happens to carry the other client's secret as well (post-other / basic-other); then the case is grey.
 func judge(c Case) verdict {
 	v := judgeCaller(c)
 	zr := c.zReg()
@@ -534,6 +539,9 @@ func judge(c Case) verdict {
 		case c.Endpoint == "device_authorization":
 			v.ZServable = has(zr.Grants, vkit.GDevice)
 		case zr.AuthMethod == mNone:
+			v.ZServable = true
+		case c.Pres == "post-other" || c.Pres == "basic-other":
+			// the request carries the other client's id AND the other client's secret (under the caller's id, but still)
 			v.ZServable = true
 		case !consistentApp(zr):
 			// confidential by auth method, public by application type: see app-type-vs-auth-method
@@ -1371,13 +1379,19 @@ var prop = vkit.Prop[Case]{
 		"malformed header / POST right, wrong, other's / client assertion right, wrong type, wrong key, unknown kid, other issuer, expired, wrong audience, sub != iss / the same naming an unregistered client) " +
 		"x optional conflicting client_id form value x endpoint (token with grant_type in {6 grants, implicit, unknown, missing} / introspection / revocation / device_authorization) x parameters in body / URL / GET request " +
 		"x provider flags (post, private_key_jwt, refresh, client-credentials / token-exchange / device capability) x optional storage fault on client / secret / key lookup x router; every request carries valid grant material owned by the named client " +
-		"(live code + verifier + redirect_uri, live refresh token, approved device code, live subject token, genuine grant assertion, live token to introspect / revoke). " +
+		"(live code + verifier + redirect_uri, live refresh token, approved device code, live subject token, genuine grant assertion, live token to introspect / revoke) " +
+		"- or, in a quarter of the cases with such material, owned by the OTHER registered client (generated live registration of its own or an inert confidential one), whose credentials the request does not carry, " +
+		"half of these with the other client's id riding along as the conflicting client_id; the conflicting client_id travels in the form body or in the URL query (for POST / client_id-only presentations as a second value). " +
+		"The OPTIONAL parameters of each grant are a dimension of their own: scope (absent / 6 values; one case in four) on every grant and on device authorization; token exchange requested_token_type (absent / access / refresh / id / jwt / unknown) x " +
+		"subject_token_type (refresh / access / id token, each with live material) x actor token (none / access / refresh) x audience and resource lists; token_type_hint on introspection. " +
 		"About half of the cases add a HISTORY in front of that request: a generated registration for the other client (any auth method / grants; its key optionally registered under the SAME kid as the named client's, different key), " +
 		"a prelude of 0-3 earlier requests (either client x 11 endpoint/grant targets x any presentation, 60% the right one) on the same provider instance or on a SECOND provider instance (either router) of the same process whose storage " +
 		"holds an alternate registration of the same client ids (other secrets, other keys under the same kids, optionally another auth method), and a registration change on the provider under test between prelude and test " +
 		"(alternate registration replaced by the current one = secret rotated / key replaced under its kid / method changed; client deleted; client registered only now); with a prelude the presentation under test is re-drawn half of the time " +
 		"from the confusion family (no / partial credentials, the credential of the other registration of the same id, the other client's secret, an assertion naming the other client). Every prelude request is judged by the same oracle " +
 		"against the registration in force at its time on its provider; the request under test against the registration in force at its time. " +
+		"The caller's standing (authenticated as registered, grant registered and enabled) and the client for whom honouring the material would be acting (its owner) are judged separately: material of a client the request does not authenticate must never be honoured " +
+		"(no tokens, no active:true, no revocation), whoever the caller is. " +
 		"non-trivial = must-refuse cell with valid material, or must-accept cell with a presentation other than plain Basic; distinct = the product cell",
 	Gen: genCase,
 	Run: run,
